@@ -205,7 +205,7 @@ func (c *c13) nilRules() {
 	r.Rule("C13.nil-decoded", "NIL", "decoded pointers dereferenced only under a non-nil test", 5)
 	type item struct {
 		rule, cons, pos, why string
-		ok           bool
+		ok                   bool
 	}
 	var decoded, phis []item
 	var fns []*ssa.Function
